@@ -4,6 +4,7 @@ import (
 	"encoding/json"
 	"fmt"
 	"os"
+	"runtime"
 	"strings"
 	"testing"
 
@@ -119,5 +120,53 @@ func TestSites(t *testing.T) {
 			t.Fatal(err)
 		}
 		fmt.Println(q, "\n  drop:", w.aliasDropSites(p), "\n  multi:", w.typenameMultiSites(p), "\n  enum:", w.hasRepeatedEnumArg(p), "nullparent:", w.resolverUnderNullable(p))
+	}
+}
+
+func TestAllocRate(t *testing.T) {
+	if os.Getenv("C20_ALLOC") == "" {
+		t.Skip()
+	}
+	g, err := rigByName("plain")
+	if err != nil {
+		t.Fatal(err)
+	}
+	var m0, m1 runtime.MemStats
+	qs := []string{`{ users { id name } }`, `{ categories { id topSubcategory { name } childCategories { id totalProducts } } }`}
+	for _, q := range qs {
+		g.exec(q)
+		runtime.ReadMemStats(&m0)
+		for i := 0; i < 50; i++ {
+			// vary the text so that every execution plans anew, like generated cases do
+			g.exec(strings.Replace(q, "{", fmt.Sprintf("{ a%d: __typename ", i), 1))
+		}
+		runtime.ReadMemStats(&m1)
+		fmt.Printf("%s: %.1f MB allocated per fresh execution\n", q, float64(m1.TotalAlloc-m0.TotalAlloc)/50/1e6)
+		runtime.ReadMemStats(&m0)
+		for i := 0; i < 50; i++ {
+			g.exec(q)
+		}
+		runtime.ReadMemStats(&m1)
+		fmt.Printf("%s: %.1f MB allocated per cached execution\n", q, float64(m1.TotalAlloc-m0.TotalAlloc)/50/1e6)
+	}
+}
+
+func TestLiveHeap(t *testing.T) {
+	if os.Getenv("C20_ALLOC") == "" {
+		t.Skip()
+	}
+	g, err := rigByName("plain")
+	if err != nil {
+		t.Fatal(err)
+	}
+	q := `{ categories { id topSubcategory { name } childCategories { id totalProducts } } }`
+	var m runtime.MemStats
+	for n := 0; n <= 2400; n++ {
+		if n%300 == 0 {
+			runtime.GC()
+			runtime.ReadMemStats(&m)
+			fmt.Printf("after %4d distinct operations: live heap %4d MB, heapSys %4d MB\n", n, m.HeapAlloc>>20, m.HeapSys>>20)
+		}
+		g.exec(strings.Replace(q, "{", fmt.Sprintf("{ a%d: __typename ", n), 1))
 	}
 }
